@@ -84,3 +84,29 @@ def dist(v, a, b, mode="default"):
             q = abs(((x >> (2 * k)) & 3) - ((y >> (2 * k)) & 3))
             d += 6 if q == 3 else q
     return d
+
+
+# ---- length code (C09 reference): the GOLDEN table of the reference (coq/Spec/SpecTables.v), never the source's ----
+_TOPVAL = None
+
+
+def spec_topval():
+    global _TOPVAL
+    if _TOPVAL is None:
+        import os
+        import re
+        txt = open(os.path.join(os.path.dirname(os.path.dirname(os.path.abspath(__file__))), "coq", "Spec", "SpecTables.v")).read()
+        m = re.search(r"Definition topval : list N := \((.*?)nil\)", txt, flags=re.S)
+        _TOPVAL = [int(x) for x in re.findall(r"\d+", m.group(1))]
+        assert len(_TOPVAL) == 170 and _TOPVAL[-1] == 4224281216
+    return _TOPVAL
+
+
+def spec_code(n):
+    """least i with n <= topval[i]; 0 for n = 0; None above the maximum"""
+    if n == 0:
+        return 0
+    import bisect
+    t = spec_topval()
+    i = bisect.bisect_left(t, n)
+    return i if i < len(t) else None
